@@ -1,4 +1,4 @@
-From Verif Require Import Lib.Base Pcs.Model Pcs.Proofs.
+From Verif Require Import Lib.Base Pcs.Model Pcs.Proofs Pcs.Node Pcs.NodeProofs Gen.PcsVectors Pcs.Vectors.
 From Coq Require Import ZArith.
 
 Theorem accept_implies_all_checks :
@@ -115,3 +115,89 @@ Theorem non_vacuity_examples :
    (exists o, verify sgxP toy_env default_policy 100000 toy_sgx_raw toy_coll = Ok o)).
 Proof. exact (conj ex_sgx_accepted (conj ex_tdx_accepted ex_interval_hypotheses)). Qed.
 Print Assumptions non_vacuity_examples.
+
+(* ---------- third anchor: node registration (go/common/node) ---------- *)
+
+Theorem registration_binds_rak :
+  forall (NP : NPrims) (env : Env) (cfg0 : option TeeCfg) (ts : Z) (height : N)
+         (constraints : option Constraints) (node_id : bytes) (is261 : bool) (cap : CapTee) (u : unit),
+    cap_verify NP env cfg0 ts height constraints node_id is261 cap = NOk u ->
+    exists a sc raw c mre mrs rd,
+      ct_att cap = Some a /\ constraints = Some sc /\
+      Binds NP env (cfg_of cfg0) ts height sc node_id cap a raw c mre mrs rd.
+Proof. exact registration_binds_rak_l. Qed.
+Print Assumptions registration_binds_rak.
+
+Theorem foreign_quote_never_binds :
+  forall (NP : NPrims) (env : Env) (cfg0 : option TeeCfg) (ts : Z) (height : N) (sc : Constraints)
+         (node_id : bytes) (is261 : bool) (cap : CapTee) (a : Attestation) (raw : bytes) (c : Collateral),
+    ct_att cap = Some a -> a_quote a = QKPcs raw c ->
+    (forall mre mrs rd, verify (np_pcs NP) env (eff_pcs_policy (cfg_of cfg0) sc) ts raw c = Ok (mre, mrs, rd) ->
+                        firstn 32 rd <> hash512_256 NP (tee_hash_context ++ ct_rak cap)) ->
+    forall u, cap_verify NP env cfg0 ts height (Some sc) node_id is261 cap <> NOk u.
+Proof. exact foreign_quote_never_binds_l. Qed.
+Print Assumptions foreign_quote_never_binds.
+
+Theorem unlisted_or_stale_never_registers :
+  forall (NP : NPrims) (env : Env) (cfg0 : option TeeCfg) (ts : Z) (height : N) (sc : Constraints)
+         (node_id : bytes) (is261 : bool) (cap : CapTee) (a : Attestation) (raw : bytes) (c : Collateral)
+         (mre mrs rd : bytes),
+    ct_att cap = Some a -> a_quote a = QKPcs raw c ->
+    verify (np_pcs NP) env (eff_pcs_policy (cfg_of cfg0) sc) ts raw c = Ok (mre, mrs, rd) ->
+    (forall e, In e (sc_enclaves sc) -> ~ (fst e = mre /\ snd e = mrs))
+    \/ f_signed (cfg_of cfg0) = true /\
+       (height < a_height a \/ eff_max_age (cfg_of cfg0) sc < height - a_height a \/
+        rak_verify NP (ct_rak cap) (att_message NP rd node_id (a_height a) (ct_rek cap)) (a_sig a) = false) ->
+    forall u, cap_verify NP env cfg0 ts height (Some sc) node_id is261 cap <> NOk u.
+Proof. exact unlisted_or_stale_never_registers_l. Qed.
+Print Assumptions unlisted_or_stale_never_registers.
+
+Theorem unsigned_attestation_frame :
+  forall (NP : NPrims) (env : Env) (cfg : TeeCfg) (ts : Z) (h1 h2 : N) (sc : Constraints) (nid1 nid2 : bytes)
+         (is261 : bool) (hw : N) (rak : bytes) (rek1 rek2 : option bytes) (v : N) (k : QuoteKind)
+         (ah1 ah2 : N) (s1 s2 : bytes),
+    f_signed cfg = false ->
+    cap_verify NP env (Some cfg) ts h1 (Some sc) nid1 is261 (mkCap hw rak rek1 (Some (mkAtt v k ah1 s1))) =
+    cap_verify NP env (Some cfg) ts h2 (Some sc) nid2 is261 (mkCap hw rak rek2 (Some (mkAtt v k ah2 s2))).
+Proof. exact unsigned_attestation_frame_l. Qed.
+Print Assumptions unsigned_attestation_frame.
+
+Theorem registration_examples :
+  cap_verify toyNP toy_env (Some toy_cfg) 50 1000 (Some toy_sc) [7] true (toy_cap 990 toy_rak) = NOk tt /\
+  cap_verify toyNP toy_env (Some toy_cfg) 50 1000 (Some toy_sc) [7] true (toy_cap 990 (repeat 0xDB 32)) = NRej NRakHashMismatch.
+Proof. exact (conj (proj1 ex_registration) (proj1 (proj2 ex_registration))). Qed.
+Print Assumptions registration_examples.
+
+(* ---------- the real Intel vectors (coq/Gen/PcsVectors.v) ---------- *)
+
+Theorem real_sgx_vector :
+  let q := parsed sgxP b_q_sgx in
+  parse_quote sgxP b_q_sgx = inl q /\
+  q_version q = 3 /\ q_tee q = TEE_SGX /\ q_cert_type q = 5 /\ q_slack q = [] /\
+  q_header q = firstn 48 b_q_sgx /\ q_body q = slice 48 384 b_q_sgx /\
+  output_of sgxP (q_tee q) (q_body q) =
+    (hx 32 0x68823bc62f409ee33a32ea270cfe45d4b19a6fb3c8570d7bc186cbe062398e8f,
+     hx 32 0x9affcfae47b848ec2caf1c49b4b283531e1cc425f93582b36806e52a43d78d1a,
+     slice 368 64 b_q_sgx) /\
+  firstn 4 (sgx_report_data (q_body q)) = [2; 106; 105; 206] /\
+  sgx_debug (q_body q) = false /\ sgx_flags (q_body q) = 5 /\ sgx_xfrm (q_body q) = 3 /\
+  sgx_flags (q_qe_report q) = 0x15 /\ sgx_xfrm (q_qe_report q) = 231 /\
+  qeid_verify real_qi_sgx (q_qe_report q) = Ok tt /\
+  qeid_validate default_policy TEE_SGX 1671497404000000000 real_qi_sgx = Ok tt /\
+  qeid_validate default_policy TEE_SGX 1673786737000000000 real_qi_sgx = Rej RQeIdExpired /\
+  hex_of_len b_ti_sgx_sig 64 <> None /\ hex_of_len b_qi_sgx_sig 64 <> None.
+Proof. exact real_sgx_vector_l. Qed.
+Print Assumptions real_sgx_vector.
+
+Theorem real_tdx_vector :
+  let q := parsed sgxP b_q_tdx in
+  parse_quote sgxP b_q_tdx = inl q /\
+  q_version q = 4 /\ q_tee q = TEE_TDX /\ q_cert_type q = 5 /\ q_slack q = [] /\
+  q_body q = slice 48 584 b_q_tdx /\ td_attributes (q_body q) = 2 ^ 28 /\ td_debug (q_body q) = false /\
+  td_mrsignerseam (q_body q) = zeros 48 /\
+  pre_checks (mkEnv false false []) default_policy q = Rej RTeeNotAllowed /\
+  pre_checks (mkEnv false false []) (mkPolicy false 30 12 [] [] (Some [])) q = Ok tt /\
+  q_cert_type (parsed sgxP b_q_eppid) = 3 /\
+  pck_stage sgxP 0 (parsed sgxP b_q_eppid) = Rej RNoPckChain.
+Proof. exact real_tdx_vector_l. Qed.
+Print Assumptions real_tdx_vector.
